@@ -38,14 +38,17 @@
 EXTENDS Naturals, FiniteSets, Sequences, TLC
 CONSTANTS Peers, Blocks, W, Timeout, PruneWindow, SlowWindow,   \* as in Inflight.tla
           Window,     \* BLOCK_DOWNLOAD_WINDOW
-          Limit       \* blocks in flight per peer (the adaptive task count of the code: see Can)
+          Limit,      \* blocks in flight per peer at the start (INIT_BLOCKS_IN_TRANSIT_PER_PEER)
+          MaxHeaders, \* MAX_HEADERS_LEN
+          OneDay      \* ONE_DAY_BLOCK_NUMBER (SkipList.tla)
 VARIABLES par,                                   \* the universe
           known, stored, recvd, tip,             \* the node: header index, block store, received orphans, tip
           conn, best, lastc,                     \* peers: connected, best known header, last common header
+          slots,                                 \* peers: task count (adapts to answer times; the policy is open: Adapt)
           now, st, sched, trace, restart, low, stale, out,   \* the in-flight table (Inflight.tla)
           req                                    \* the last request: [p, R, elig, must]
 nodevars == <<known, stored, recvd, tip>>
-peervars == <<conn, best, lastc>>
+peervars == <<conn, best, lastc, slots>>
 flvars == <<now, st, sched, trace, restart, low, stale, out>>
 vars == <<par, nodevars, peervars, flvars, req>>
 
@@ -60,7 +63,7 @@ MaxHt(S) == IF S = {} THEN 0 ELSE CHOOSE h \in {Ht(x) : x \in S} : \A y \in S : 
 \* height of the highest stored block on the chain of b
 HS(b) == MaxHt(Anc(b) \cap stored)
 Tracked == DOMAIN sched
-Can(p) == IF p \in Tracked THEN (IF Limit > Cardinality(sched[p]) THEN Limit - Cardinality(sched[p]) ELSE 0) ELSE Limit
+Can(p) == IF p \in Tracked THEN (IF slots[p] > Cardinality(sched[p]) THEN slots[p] - Cardinality(sched[p]) ELSE 0) ELSE slots[p]
 Put(f, k, v) == [x \in DOMAIN f \cup {k} |-> IF x = k THEN v ELSE f[x]]
 
 \* a peer is asked only if it is connected, announced a chain with more work than our tip, and has a free slot
@@ -79,15 +82,18 @@ TraceAfter(R) == [b \in DOMAIN trace \cup {x \in R : restart >= Ht(x)} |-> IF b 
 
 NoReq == [p |-> 0, R |-> {}, elig |-> FALSE, must |-> FALSE]
 Init0 == /\ known = {} /\ stored = {} /\ recvd = {} /\ tip = 0
-         /\ conn = {} /\ best = [p \in Peers |-> 0] /\ lastc = [p \in Peers |-> 0]
+         /\ conn = {} /\ best = [p \in Peers |-> 0] /\ lastc = [p \in Peers |-> 0] /\ slots = [p \in Peers |-> Limit]
          /\ now = 0 /\ st = <<>> /\ sched = <<>> /\ trace = <<>> /\ restart = 0 /\ stale = {}
          /\ out = [op |-> "none", ret |-> 0] /\ req = NoReq
 
 Connect(p) == /\ p \notin conn /\ conn' = conn \cup {p}
-              /\ UNCHANGED <<par, nodevars, best, lastc, flvars>> /\ req' = NoReq
+              /\ UNCHANGED <<par, nodevars, best, lastc, slots, flvars>> /\ req' = NoReq
+\* the task counts move with the answer times and time-outs (DownloadScheduler); how is not part of the property
+Adapt(ns) == /\ ns \in [Peers -> Nat] /\ slots' = ns
+             /\ UNCHANGED <<par, nodevars, conn, best, lastc, flvars>> /\ req' = NoReq
 \* SyncState::disconnected: the peer's requests are released, its state is forgotten
 Disconnect(p) == /\ p \in conn /\ conn' = conn \ {p}
-                 /\ best' = [best EXCEPT ![p] = 0] /\ lastc' = [lastc EXCEPT ![p] = 0]
+                 /\ best' = [best EXCEPT ![p] = 0] /\ lastc' = [lastc EXCEPT ![p] = 0] /\ slots' = slots
                  /\ IB!RemoveByPeer(p)
                  /\ UNCHANGED <<par, nodevars>> /\ req' = NoReq
 \* a verified header chain up to b from p (HeadersProcess -> insert_valid_header for every header in order)
@@ -95,14 +101,14 @@ RecvHeaders(p, b) ==
   /\ p \in conn /\ b \in Blocks
   /\ known' = known \cup Anc(b)
   /\ best' = [best EXCEPT ![p] = IF best[p] = 0 \/ Better(b, best[p]) THEN b ELSE best[p]]
-  /\ UNCHANGED <<par, stored, recvd, tip, conn, lastc, flvars>> /\ req' = NoReq
+  /\ UNCHANGED <<par, stored, recvd, tip, conn, lastc, slots, flvars>> /\ req' = NoReq
 
 \* BlockFetcher::fetch(p): R = the blocks requested, L = the peer's last common header afterwards
 Fetch(p, R, L) ==
   /\ p \in conn
   /\ IF ~Eligible(p)
-     THEN \* nothing is requested; the last common header may move to the peer's best header if the node has it
-          /\ R = {} /\ L \in {lastc[p]} \cup ({best[p]} \cap stored)
+     THEN \* nothing is requested; the last common header stays or moves to a stored block of the peer's chain
+          /\ R = {} /\ L \in {lastc[p]} \cup (Anc(best[p]) \cap stored)
      ELSE /\ R \subseteq MayCand(p)
           /\ Cardinality(R) <= Can(p)
           /\ MustCand(p) # {} => R # {}
@@ -112,7 +118,7 @@ Fetch(p, R, L) ==
   /\ lastc' = [lastc EXCEPT ![p] = L]
   /\ req' = [p |-> p, R |-> R, elig |-> Eligible(p), must |-> (Eligible(p) /\ MustCand(p) # {})]
   /\ out' = [op |-> "Fetch", ret |-> Cardinality(R)]
-  /\ UNCHANGED <<par, nodevars, conn, best, now, restart, low, stale>>
+  /\ UNCHANGED <<par, nodevars, conn, best, slots, now, restart, low, stale>>
 
 \* the blocks that become stored when b (parent stored) is stored: b and the received descendants hanging on it
 RECURSIVE Hang(_, _)
@@ -143,7 +149,28 @@ PruneStep(E) ==
   /\ conn' = conn \ E
   /\ best' = [p \in Peers |-> IF p \in E THEN 0 ELSE best[p]]
   /\ lastc' = [p \in Peers |-> IF p \in E THEN 0 ELSE lastc[p]]
-  /\ UNCHANGED <<par, nodevars>> /\ req' = NoReq
+  /\ UNCHANGED <<par, nodevars, slots>> /\ req' = NoReq
+
+
+\* ---- answering a peer's getheaders (get_headers_process.rs): SkipList.tla gives the heights a locator names
+SL == INSTANCE SkipList WITH par <- <<0>>, ht <- <<0>>, skp <- <<0>>, anc <- << <<1>> >>
+AncAt(b, h) == IF h = 0 THEN 0 ELSE CHOOSE x \in Anc(b) : Ht(x) = h
+LocatorOf(b) == LET hs == SL!LocatorHeights(Ht(b)) IN [i \in 1..Len(hs) |-> AncAt(b, hs[i])]
+Main == Anc(tip) \cup {0}
+\* the highest block of the main chain on the chain of b (b stored, so its chain is stored)
+ForkPoint(b) == CHOOSE x \in (Anc(b) \cup {0}) \cap Main : \A y \in (Anc(b) \cup {0}) \cap Main : Ht(y) <= Ht(x)
+FirstOnMain(loc) == CHOOSE i \in 1..Len(loc) : loc[i] \in Main /\ \A j \in 1..(i - 1) : loc[j] \notin Main
+\* the latest common block: the first locator entry on the main chain, improved to the fork point of the entry before
+\* it when the node has that block
+Common(loc) == LET i == FirstOnMain(loc)
+               IN IF i > 1 /\ loc[i] # 0 /\ loc[i - 1] \in stored THEN ForkPoint(loc[i - 1]) ELSE loc[i]
+Response(loc) == LET c == Ht(Common(loc))
+                     n == IF Ht(tip) - c > MaxHeaders THEN MaxHeaders ELSE Ht(tip) - c
+                 IN [k \in 1..n |-> AncAt(tip, c + k)]
+\* a locator must end with genesis; the answer continues the main chain after the latest common block
+GetHeaders(loc, resp) == /\ Len(loc) > 0 /\ loc[Len(loc)] = 0
+                         /\ resp = Response(loc)
+                         /\ UNCHANGED <<par, nodevars, peervars, flvars>> /\ req' = NoReq
 
 -----------------------------------------------------------------------------
 TreeOK == /\ DOMAIN par = Blocks
@@ -165,10 +192,21 @@ RequestSafe == req.p # 0 =>
                  /\ req.R \subseteq known
                  /\ \A b \in req.R : st[b].peer = req.p                           \* assigned to this peer, to nobody else
                  /\ \A b \in req.R : Ht(b) <= HS(best[req.p]) + 1 + Window
-                 /\ req.R = {} \/ Cardinality(sched[req.p]) <= Limit
+                 /\ req.R = {} \/ Cardinality(sched[req.p]) <= slots[req.p]
                  /\ ~req.elig => req.R = {}
 RequestLive == req.must => req.R # {}
 LastCommonOK == req.p # 0 /\ req.elig => lastc[req.p] \in (Anc(best[req.p]) \cap stored) \cup {0}
+\* the same three as properties of the step that makes the request (exhaustive runs leave `req` out of their VIEW)
+ReqSafeStep == req'.p # 0 =>
+                 /\ req'.R \cap (stored \cup recvd) = {}
+                 /\ req'.R \subseteq Anc(best[req'.p])
+                 /\ req'.R \subseteq known
+                 /\ \A b \in req'.R : st'[b].peer = req'.p
+                 /\ \A b \in req'.R : Ht(b) <= HS(best[req'.p]) + 1 + Window
+                 /\ req'.R = {} \/ Cardinality(sched'[req'.p]) <= slots[req'.p]
+                 /\ ~req'.elig => req'.R = {}
+ReqLiveStep == req'.must => req'.R # {}
+LastCommonStep == (req'.p # 0 /\ req'.elig) => lastc'[req'.p] \in (Anc(best[req'.p]) \cap stored) \cup {0}
 \* the request never takes a block that was in flight (step form: R is disjoint from the old table)
 FreshStep == req'.p # 0 => req'.R \cap DOMAIN st = {}
 NeverTwice == [][FreshStep]_vars
